@@ -8,8 +8,9 @@ import itertools
 import warnings
 
 import wn
+import unicodedata
+
 from wn.morphy import Morphy
-from wn._util import normalize_form
 
 from .. import env, mk, runner
 
@@ -23,7 +24,9 @@ MANIFEST = dict(
 )
 
 ALPHABET = ['resume', 'résumé', 'Resume', 'san jose', 'San José', 'ハラペーニョ', 'ｒｅｓｕｍｅ']
-NEAR = ['resumé', 'RESUME', 'resum', 'x', 'resumes']
+# marks that are not 'combining' in the Unicode sense (class 0: Devanagari vowel signs) must be kept
+INDIC = ['कुल', 'कल', 'कूल']
+NEAR = ['resumé', 'RESUME', 'resum', 'x', 'resumes', 'RESUMES', 'Resumer']
 BATCH = 24
 CUSTOM = {'RESUME': {'n': {'resume', 'résumé'}}, 'x': {None: {'san jose'}, 'v': {'Resume'}},
           'resum': {}, 'resumes': {'v': {'resume'}, 'n': {'Resume'}}}
@@ -34,7 +37,9 @@ def custom_lemmatizer(form, pos=None):
 
 
 def norm(s):
-    return normalize_form(s)
+    """the documented default normalizer, written independently of wn._util: lower-case, NFKD,
+    characters with a non-zero canonical combining class dropped"""
+    return ''.join(c for c in unicodedata.normalize('NFKD', s.lower()) if not unicodedata.combining(c))
 
 
 def ref_find(words, kind, q, pos, normalizer_on, all_forms, lemmatizer):
@@ -187,12 +192,14 @@ def space(tier, seed):
         qpos = [None, 'n', 'v', 'a', 's', 'r']
     else:
         alpha = ['resume', 'résumé', 'Resume', 'San José', ['ｒｅｓｕｍｅ', 'ハラペーニョ', 'san jose'][seed % 3]]
-        poss_w, extras = ['n', 'v', 's'], [None, 'résumé', 'Resume']
+        poss_w, extras = ['n', 'v', 's'], [None, 'résumé', 'Resume', 'resume']
         qpos = [None, 'n', 'v', 'a']
     words = [(p, l, x) for p in poss_w for l in alpha for x in extras if x != l]
     if tier == 'quick':
         words = [w for w in words if not (w[0] == 's' and w[2])]
     lexicons = [[w] for w in words]
+    ind = [('n', a, b) for a in INDIC[:2] for b in [None] + INDIC[:2] if a != b]
+    lexicons += [[w] for w in ind] + [list(p) for p in itertools.combinations(ind, 2)]
     pairs = itertools.combinations(words, 2)
     if tier == 'thorough':
         # all pairs over a 4-form sub-alphabet x 2 pos, plus a fixed stride through the full pair space
@@ -200,7 +207,7 @@ def space(tier, seed):
         lexicons += [list(p) for p in itertools.combinations(sub, 2)]
     else:
         lexicons += [list(p) for p in pairs]
-    queries = list(dict.fromkeys(alpha + (ALPHABET if tier == 'thorough' else []) + NEAR))
+    queries = list(dict.fromkeys(alpha + (ALPHABET if tier == 'thorough' else []) + NEAR + INDIC))
     cases = [{'lexicons': lexicons[i:i + BATCH], 'queries': queries, 'pos': qpos}
              for i in range(0, len(lexicons), BATCH)]
     for f in ['extra form', 'Zzz Förm']:
